@@ -107,4 +107,29 @@ theorem parallelInit_loop_covers (c : PanelCfg) (ukids0 : Array Int) (sh0 : Sh) 
   · exact ⟨Nat.zero_le _, relaxSnode_ok c.n c.relax c.etree h, fun r _ => Nat.zero_le _⟩
   · simp
 
+/-- frame: the partition loop never touches the task queue or the column flags (they are filled by `EnqueueRelaxSnode` afterwards) -/
+theorem initStep_frame (c : PanelCfg) (ukids0 : Array Int) (a : InitAcc) :
+    (initStep c ukids0 a).sh.queue = a.sh.queue ∧ (initStep c ukids0 a).sh.head = a.sh.head
+      ∧ (initStep c ukids0 a).sh.tail = a.sh.tail ∧ (initStep c ukids0 a).sh.count = a.sh.count
+      ∧ (initStep c ukids0 a).sh.spin = a.sh.spin := by
+  unfold initStep
+  simp only []
+  simp
+
+theorem initLoop_frame (c : PanelCfg) (ukids0 : Array Int) :
+    ∀ fuel a, (initLoop c ukids0 fuel a).sh.queue = a.sh.queue ∧ (initLoop c ukids0 fuel a).sh.head = a.sh.head
+      ∧ (initLoop c ukids0 fuel a).sh.tail = a.sh.tail ∧ (initLoop c ukids0 fuel a).sh.count = a.sh.count
+      ∧ (initLoop c ukids0 fuel a).sh.spin = a.sh.spin := by
+  intro fuel
+  induction fuel with
+  | zero => intro a; simp [initLoop]
+  | succ f ih =>
+    intro a
+    unfold initLoop
+    split
+    · have F := initStep_frame c ukids0 a
+      have I := ih (initStep c ukids0 a)
+      exact ⟨I.1.trans F.1, I.2.1.trans F.2.1, I.2.2.1.trans F.2.2.1, I.2.2.2.1.trans F.2.2.2.1, I.2.2.2.2.trans F.2.2.2.2⟩
+    · simp
+
 end Slu
